@@ -4,6 +4,8 @@
 package race
 
 import (
+	"context"
+	"net"
 	"os"
 	"strconv"
 	"sync"
@@ -12,6 +14,8 @@ import (
 	"time"
 
 	simplefixgo "github.com/b2broker/simplefix-go"
+	"github.com/b2broker/simplefix-go/session"
+	"github.com/b2broker/simplefix-go/storages/memory"
 	fixgen "github.com/b2broker/simplefix-go/tests/fix44"
 	"github.com/b2broker/simplefix-go/utils"
 
@@ -180,6 +184,60 @@ func scenario(t *testing.T, name, role string) {
 	})
 }
 
+// connectionDies: a real Initiator and Conn over an in-memory connection; the peer answers the Logon, then stops reading while
+// several goroutines send (the writer is inside Write), then closes: the read and the pending write fail in the same episode,
+// Serve and the handler wind down while senders still call Send and the application queries the state.
+func connectionDies(t *testing.T) {
+	// (real time: goroutines waiting for a mutex held by one that is parked on the connection are not "durably blocked" for
+	// testing/synctest, the virtual clock would never advance)
+	c1, c2 := net.Pipe()
+	h := simplefixgo.NewInitiatorHandler(context.Background(), fixgen.FieldMsgType, 10)
+	store := memory.NewStorage()
+	s, err := session.NewInitiatorSession(h, sess.Opts([]string{"0"}), &session.LogonSettings{TargetCompID: "PEER", SenderCompID: "SRV",
+		HeartBtInt: 1, EncryptMethod: "0", CloseTimeout: 200 * time.Millisecond}, store, store)
+	if err != nil {
+		t.Fatalf("DRIVER-ERROR %v", err)
+	}
+	ini := simplefixgo.NewInitiator(c1, h, 10, 300*time.Millisecond)
+	serveDone := make(chan struct{})
+	go func() { _ = ini.Serve(); close(serveDone) }()
+	_ = s.Run()
+	buf := make([]byte, 4096)
+	_ = c2.SetDeadline(time.Now().Add(2 * time.Second))
+	_, _ = c2.Read(buf) // the Logon
+	a := &sess.Action{A: "logon", Seq: 1, Hb: 1, Enc: "0", Cred: true, Sq: "ok", Integ: "none", ID: []int{}}
+	_, _ = c2.Write(sess.Inbound(a, "PEER", "SRV", time.Now().UTC().Format("20060102-15:04:05.000")))
+	time.Sleep(20 * time.Millisecond)
+	var wg sync.WaitGroup
+	for g := 0; g < 4; g++ {
+		wg.Add(1)
+		go func() {
+			defer wg.Done()
+			for k := 0; k < 6; k++ {
+				done := make(chan struct{})
+				go func() { _ = s.Send(fixgen.NewMarketDataRequest().SetMDReqID("x")); close(done) }()
+				select {
+				case <-done:
+				case <-time.After(2 * time.Second):
+					return
+				}
+				_ = s.IsLogged()
+			}
+		}()
+	}
+	time.Sleep(30 * time.Millisecond) // the peer has stopped reading: the writer is inside a Write, the queue fills up
+	_ = c2.Close()
+	time.Sleep(400 * time.Millisecond)
+	h.Stop()
+	ini.Close()
+	wg.Wait()
+	select {
+	case <-serveDone:
+	case <-time.After(2 * time.Second):
+	}
+	time.Sleep(50 * time.Millisecond)
+}
+
 func TestRace(t *testing.T) {
 	name, role := os.Getenv("VERIF_RACE_SCENARIO"), os.Getenv("VERIF_RACE_ROLE")
 	if name == "" {
@@ -190,6 +248,10 @@ func TestRace(t *testing.T) {
 		reps = 1
 	}
 	for i := 0; i < reps; i++ {
+		if name == "connection_dies_under_load" {
+			connectionDies(t)
+			continue
+		}
 		scenario(t, name, role)
 	}
 }
